@@ -94,7 +94,7 @@ def forced_duplicate_ids():
         return None
     out["b"] = proto.get_next_system_counter()
     go.set()
-    ta.join(5)
+    ta.join(5 * H.scale())
     out["schedule"] = "A: counter += 1 | B: whole call | A: wrap check, return counter"
     return out
 
@@ -238,7 +238,7 @@ def bnd_concurrent(tier, seed):
                 # the reply echoes the request body so that a mix-up is visible in the payload as well
                 conn.feed(H.frame(0, s, 1, 4, False, body))
             for t in threads:
-                t.join(4.0)
+                t.join(4.0 * H.scale())
             body_of = dict(sent)
             sys_of = {}
             for s, b in sent:
